@@ -371,6 +371,8 @@ pub fn jacobi<const L: usize>(n: &[u64], d: &[u64]) -> i64 {
         // the binary Euclidean algorithm. This approach aims at avoiding the
         // parts of the final computations, which are related to long arithmetic
         if precise {
+            #[cfg(feature = "verif-hooks")]
+            verif_jacobi_log_push(&n.0, &d.0, t, (a, b), u, v);
             return jacobinary(a, b, t);
         }
         while i > 0 {
@@ -404,6 +406,8 @@ pub fn jacobi<const L: usize>(n: &[u64], d: &[u64]) -> i64 {
                 i -= z;
             }
         }
+        #[cfg(feature = "verif-hooks")]
+        verif_jacobi_log_push(&n.0, &d.0, t, (a, b), u, v);
         (n, d) = ((&n * u.0 + &d * u.1) >> 30, (&n * v.0 + &d * v.1) >> 30);
 
         // This fragment is present to guarantee the correct behavior of the function
@@ -430,4 +434,65 @@ pub fn jacobi<const L: usize>(n: &[u64], d: &[u64]) -> i64 {
             d = -d;
         }
     }
+}
+
+/// Verification hook: the state of one iteration of the outer loop of [`jacobi`]: the values
+/// of `n`, `d` (64-bit chunks, two's complement) at the top of the iteration, and `t`, the
+/// "approximations" `(a, b)` and the update vectors `u`, `v` when the inner loop has ended
+/// (for the last iteration, which hands `(a, b, t)` over to `jacobinary`: the values before it).
+#[cfg(feature = "verif-hooks")]
+#[derive(Clone, Debug, PartialEq, Eq)]
+pub struct VerifJacobiStep {
+    /// The chunks of `n` at the top of the iteration.
+    pub n: Vec<u64>,
+    /// The chunks of `d` at the top of the iteration.
+    pub d: Vec<u64>,
+    /// The sign accumulator after the inner loop.
+    pub t: u64,
+    /// The "approximations" after the inner loop.
+    pub ab: (u64, u64),
+    /// The first update vector after the inner loop.
+    pub u: (i64, i64),
+    /// The second update vector after the inner loop.
+    pub v: (i64, i64),
+}
+
+#[cfg(feature = "verif-hooks")]
+thread_local! {
+    static VERIF_JACOBI_LOG: std::cell::RefCell<Option<Vec<VerifJacobiStep>>> = const { std::cell::RefCell::new(None) };
+}
+
+/// Verification hook: switches the (observe-only, thread-local) log of the outer-loop states
+/// of [`jacobi`] on and empties it. Off unless switched on.
+#[cfg(feature = "verif-hooks")]
+pub fn verif_jacobi_log_start() {
+    VERIF_JACOBI_LOG.with(|l| *l.borrow_mut() = Some(Vec::new()));
+}
+
+/// Verification hook: returns the logged outer-loop states and switches the log off.
+#[cfg(feature = "verif-hooks")]
+pub fn verif_jacobi_log_take() -> Vec<VerifJacobiStep> {
+    VERIF_JACOBI_LOG.with(|l| l.borrow_mut().take().unwrap_or_default())
+}
+
+#[cfg(feature = "verif-hooks")]
+fn verif_jacobi_log_push(n: &[u64], d: &[u64], t: u64, ab: (u64, u64), u: (i64, i64), v: (i64, i64)) {
+    VERIF_JACOBI_LOG.with(|l| {
+        if let Some(log) = l.borrow_mut().as_mut() {
+            log.push(VerifJacobiStep {
+                n: n.to_vec(),
+                d: d.to_vec(),
+                t,
+                ab,
+                u,
+                v,
+            });
+        }
+    });
+}
+
+/// Verification hook: the private `jacobinary` (the short-arithmetic tail of [`jacobi`]).
+#[cfg(feature = "verif-hooks")]
+pub fn verif_jacobinary(n: u64, d: u64, t: u64) -> i64 {
+    jacobinary(n, d, t)
 }
